@@ -40,6 +40,7 @@ PROPS = {  # public property -> (name id, flow, nophase)
     'Cn': (2, False, False), 'V': (3, False, False), 'kappa': (4, False, False), 'mu': (5, False, False),
     'sigma': (6, False, True), 'epsilon': (7, False, True), 'Hvap': (8, True, True)}
 DERIVED = ['rho', 'Cp', 'nu', 'alpha', 'Pr', 'F_vol']
+VECTOR = ['vol', 'z_vol']      # per-chemical volumetric flows (through indexer.by_volume and _data_cache)
 NAMES = ['H', 'S', 'Cn', 'V', 'kappa', 'mu', 'sigma', 'epsilon', 'Hvap']
 W = [1., .5, 2., .25, 4., .125, 8., .0625, 16.]
 A = [[8., 16., 32.], [24., 40., 4.], [24., 40., 4.]]
@@ -79,11 +80,19 @@ def env():
         def xsolve_T_at_HP(self, phase_mol, H, T_guess, P):
             return 256. + 16. * (int(round(abs(H))) % 8)
 
+    from thermosteam.base import PhaseTPHandle
+    class StubV:
+        """Chemical.V of chemical j in phase q: dyadic, depends on the phase and on T"""
+        def __init__(self, j, q): self.j = j; self.q = q
+        def __call__(self, T, P=None): return (self.j + 1 + 4 * (self.q + 1)) / 1024. + T / 4194304.
+        def copy(self): return self
     thermos = []
     for pkg in (0, 1):
         chems = tmo.Chemicals([tmo.Chemical(n, search_db=False, MW=mw, Hf=0., Cn=64., phase='l', default=True)
                                for n, mw in [('A_', 16.), ('B_', 32.), ('C_', 8.)]])
         chems.compile(skip_checks=True)
+        for j, c in enumerate(chems):
+            object.__setattr__(c, '_V', PhaseTPHandle('V', StubV(j, PH['s']), StubV(j, PH['l']), StubV(j, PH['g'])))
         thermos.append(tmo.Thermo(chems, mixture=StubMixture(np.array([16., 32., 8.]), pkg), skip_checks=True))
     # package 2 shares the Chemicals object of package 0 and differs only in its property functions
     thermos.append(tmo.Thermo(thermos[0].chemicals, mixture=StubMixture(np.array([16., 32., 8.]), 2), skip_checks=True))
@@ -110,7 +119,9 @@ def gen_op(rng, derived=False):
     r = rng.random()
     i, j = rng.randrange(64), rng.randrange(64)
     if r < 0.34:
-        names = list(PROPS) + (DERIVED if derived else [])
+        if rng.random() < 0.15:
+            return ['rvol', i]
+        names = list(PROPS) + (DERIVED + VECTOR if derived else [])
         return ['read', i, rng.choice(names)]
     k = rng.choice(['setT', 'setT', 'setP', 'setphase', 'setflow', 'setflow', 'setflow', 'scale', 'scale', 'fmol', 'empty',
                     'proxy', 'proxy', 'flow_proxy', 'copy', 'link', 'link', 'unlink', 'copy_like', 'copy_tc', 'copy_phase',
@@ -249,6 +260,8 @@ def resolve(objs, op):
     s = objs[i]
     if k == 'read':
         return ['read', i, op[2]], lambda: getattr(s, op[2])
+    if k == 'rvol':
+        return ['rvol', i], lambda: s.vol
     if k == 'setT': return [k, i, op[2]], lambda: setattr(s, 'T', op[2])
     if k == 'setP': return [k, i, op[2]], lambda: setattr(s, 'P', op[2])
     no_streams = is_multi(s) and not hasattr(s, '_streams')     # proxy() of a MultiStream before any reset_cache
@@ -351,6 +364,8 @@ def run_impl(case):
             rop = rop[:4] + [fr_json(frac(objs[rop[1]].T))]
         if k == 'read':
             obs.append(['val', None if r is None else fr_json(frac(r))])
+        elif k == 'rvol':
+            obs.append(['vec', [fr_json(frac(x)) for x in r.to_array()]])
         elif k in ('new', 'proxy', 'flow_proxy', 'copy', 'view'):
             found = [n for n, x in enumerate(objs) if x is r]
             if found:
@@ -376,6 +391,7 @@ def cop(o):
     if k == 'read':
         nm, fl, nop = PROPS[o[2]]
         return f'(ORead {cnat(o[1])} {cnat(nm)} {cbool(fl)} {cbool(nop)})'
+    if k == 'rvol': return f'(ORVol {cnat(o[1])})'
     if k == 'setT': return f'(OSetT {cnat(o[1])} {q(o[2])})'
     if k == 'setP': return f'(OSetP {cnat(o[1])} {q(o[2])})'
     if k == 'setphase': return f'(OSetPhase {cnat(o[1])} {cph(o[2])})'
@@ -405,6 +421,7 @@ def cobs(b):
     if b[0] == 'ok': return 'BOk'
     if b[0] == 'err': return f'(BErr {b[1]})'
     if b[0] == 'idx': return f'(BIdx {cnat(b[1])})'
+    if b[0] == 'vec': return f'(BVec {qlist([F(x) for x in b[1]])})'
     return '(BVal RNone)' if b[1] is None else f'(BVal (RVal {q(F(b[1]))}))'
 
 def csnap(s):
@@ -421,15 +438,15 @@ def coq_case(case, out):
 
 def coq_show(case, out):
     ops = clist([cop(o) for o in out['ops']])
-    return (f'(let (w, bs) := run stub_calc1 stub_calcx {cbool(SHARED)} w0 {ops} in '
+    return (f'(let (w, bs) := run stub_calc1 stub_calcx {cbool(SHARED)} stub_cvol w0 {ops} in '
             f'(bs, map (snap_of w) (seq O (length (objs (w_st w))))))')
 
 def nontrivial(case, out):
     seen_mut = False
     for o, b in zip(out.get('ops', []), out.get('obs', [])):
-        if o[0] not in ('read', 'new', 'nop') and b[0] == 'ok':
+        if o[0] not in ('read', 'rvol', 'new', 'nop') and b[0] == 'ok':
             seen_mut = True
-        if o[0] == 'read' and b[0] == 'val' and b[1] is not None and seen_mut:
+        if ((o[0] == 'read' and b[0] == 'val' and b[1] is not None) or (o[0] == 'rvol' and b[0] == 'vec')) and seen_mut:
             return True
     return False
 
@@ -443,51 +460,79 @@ def classify(case, out):
     return ks
 
 # ------------------------------------------------------------------ direct oracle
-def fresh_like(s):
-    """a freshly created stream with the same flows, phase(s), T and P (and property package)"""
+def fresh_like(s, thermo):
+    """a freshly created stream with the same flows, phase(s), T and P under the given property package"""
     tmo = env()['tmo']
     if is_multi(s):
         data = np.array([r.to_array() for r in s._imol.data.rows], float)
-        return tmo.MultiStream(None, flow=[[float(x) for x in r] for r in data], phases=tuple(s._imol._phases), T=s.T, P=s.P, thermo=s._thermo)
-    return tmo.Stream(None, flow=s._imol.data.to_array(), phase=s.phase, T=s.T, P=s.P, thermo=s._thermo)
+        return tmo.MultiStream(None, flow=[[float(x) for x in r] for r in data], phases=tuple(s._imol._phases), T=s.T, P=s.P, thermo=thermo)
+    return tmo.Stream(None, flow=s._imol.data.to_array(), phase=s.phase, T=s.T, P=s.P, thermo=thermo)
+
+def as_list(v):
+    if v is None: return None
+    if hasattr(v, 'to_array'): v = v.to_array()
+    a = np.asarray(v, float)
+    return [float(a)] if a.ndim == 0 else [float(x) for x in a.reshape(-1)]
 
 def close(a, b, tol=1e-9):
+    a, b = as_list(a), as_list(b)
     if a is None or b is None:
         return a is None and b is None
-    return abs(a - b) <= tol * max(1., abs(a), abs(b))
+    return len(a) == len(b) and all(abs(x - y) <= tol * max(1., abs(x), abs(y)) for x, y in zip(a, b))
 
 def oracle(case):
-    """The property itself on the implementation: after any history, each property read equals the value read from a
-    freshly created stream with the same flows, phase(s), T, P.  Returns a message or None."""
-    env()
-    objs = []
+    """The property itself on the implementation: after any history, each property read (scalar properties, and the
+    per-chemical volumetric flows vol / z_vol) equals the value read from a freshly created stream with the same flows,
+    phase(s), T, P and the property package the stream was given: the package it was constructed with or last switched
+    to; a phase view has the package of its MultiStream; proxies, copies and flow proxies start with the package of
+    their source.  This bookkeeping is done here and does not look at the stream's own `_thermo`."""
+    e = env(); tmo = e['tmo']; thermos = e['thermos']
+    objs, pkg, parent = [], [], []
     for step_no, op in enumerate(case['ops']):
         try:
             rop, act = resolve(objs, op)
         except Exception:
             continue
-        if op[0] == 'read':
-            s = objs[op[1] % len(objs)]
-            if not (is_multi(s) == isinstance(s, env()['tmo'].MultiStream)) or s._imol._chemicals is not s._thermo.chemicals:
-                continue            # object left inconsistent by an earlier raise / package reset of a shared indexer
+        if op[0] in ('read', 'rvol') and objs:
+            i = op[1] % len(objs)
+            s = objs[i]
+            name = 'vol' if op[0] == 'rvol' else op[2]
+            th = thermos[pkg[i]]
+            if not (is_multi(s) == isinstance(s, tmo.MultiStream)) or s._imol._chemicals is not th.chemicals:
+                continue            # object left inconsistent by an earlier raise / package reset of an indexer it shares
+            if is_multi(s) and len(s._imol._phases) != len(s._imol.data.rows):
+                continue            # link_with between MultiStreams with different phase tuples
             try:
-                want = getattr(fresh_like(s), op[2])
+                want = getattr(fresh_like(s, th), name)
+                want = want.to_array() if hasattr(want, 'to_array') else want
             except Exception:
                 continue
             try:
-                got = getattr(s, op[2])
+                got = getattr(s, name)
+                got = got.to_array() if hasattr(got, 'to_array') else got
             except Exception as ex:
-                return f'read {op[2]}: raises {type(ex).__name__} at step {step_no} while a fresh stream in the same state returns {want!r}'
+                return f'read {name}: raises {type(ex).__name__} at step {step_no} while a fresh stream in the same state returns {want!r}'
             if not close(got, want):
-                return (f'read {op[2]}: stale value at step {step_no}: stream returns {got!r}, a fresh stream with the same '
-                        f'flows, phase, T={s.T}, P={s.P} returns {want!r}')
+                return (f'read {name}: stale value at step {step_no}: stream returns {got!r}, a fresh stream with the same '
+                        f'flows, phase, T={s.T}, P={s.P} and package {pkg[i]} returns {want!r}')
             continue
         try:
             r = act()
         except Exception:
             continue
-        if rop[0] in ('new', 'proxy', 'flow_proxy', 'copy', 'view') and r is not None and not any(r is x for x in objs):
+        k = op[0]
+        if k in ('new', 'proxy', 'flow_proxy', 'copy', 'view') and r is not None and not any(r is x for x in objs):
+            src = None if k == 'new' else op[1] % len(objs)
             objs.append(r)
+            pkg.append(op[5] if k == 'new' else pkg[src])
+            parent.append(src if k == 'view' else None)
+        elif k == 'reset_thermo' and objs:
+            i = op[1] % len(objs)
+            pkg[i] = op[2]
+            live = [id(v) for v in getattr(objs[i], '_streams', {}).values()]
+            for n, v in enumerate(objs):
+                if parent[n] == i and id(v) in live:
+                    pkg[n] = op[2]
     return None
 
 def finding_key(case, msg):
